@@ -60,16 +60,38 @@ func childRpcSrv() {
 			os.Exit(4)
 		}
 	}
-	var pr api.PipeCreateResult
-	srv.Client.EnsurePipe(ctx, api.Pipe{Name: "c13pipe", TagsCond: "c13rpc=x", FilterCond: "msg contains \"first\""}, &pr)
-	WaitFor(10*time.Second, func() bool {
-		var res api.QueryResult
-		e := srv.Client.Query(ctx, &api.QueryRequest{Query: "SELECT FROM c13rpc=x LIMIT 10", Limit: 10}, &res)
-		return e == nil && len(res.Events) >= 9
+	// the warm-up requests are bounded: on a tree where an endpoint never answers the server must still come up,
+	// so that the frames of the run get their own verdicts
+	bounded := func(f func(ctx context.Context)) {
+		c2, cancel := context.WithTimeout(ctx, 5*time.Second)
+		defer cancel()
+		done := make(chan struct{})
+		go func() { defer close(done); defer func() { recover() }(); f(c2) }()
+		select {
+		case <-done:
+		case <-c2.Done():
+		}
+	}
+	bounded(func(c2 context.Context) {
+		var pr api.PipeCreateResult
+		srv.Client.EnsurePipe(c2, api.Pipe{Name: "c13pipe", TagsCond: "c13rpc=x", FilterCond: "msg contains \"first\""}, &pr)
 	})
-	srv.Client.Execute(ctx, api.ExecRequest{Query: "SHOW PARTITIONS c13rpc=x"})
+	bounded(func(c2 context.Context) {
+		WaitFor(4*time.Second, func() bool {
+			var res api.QueryResult
+			e := srv.Client.Query(c2, &api.QueryRequest{Query: "SELECT FROM c13rpc=x LIMIT 10", Limit: 10}, &res)
+			return (e == nil && len(res.Events) >= 9) || c2.Err() != nil
+		})
+	})
+	bounded(func(c2 context.Context) { srv.Client.Execute(c2, api.ExecRequest{Query: "SHOW PARTITIONS c13rpc=x"}) })
 	fmt.Println("addr", srv.Addr)
 	io.Copy(io.Discard, os.Stdin)
+	// the parent is done (or gone): shut down; a handler that never returns must not keep the process alive
+	go func() {
+		time.Sleep(20 * time.Second)
+		fmt.Println("stop timed out")
+		os.Exit(0)
+	}()
 	srv.Stop()
 	fmt.Println("stopped")
 }
@@ -87,9 +109,15 @@ type rpcServer struct {
 }
 
 var (
-	rpcMu  sync.Mutex // serialises the rpc cases (and guards rpcCur)
-	rpcCur *rpcServer
+	rpcMu    sync.Mutex // serialises the rpc cases (and guards rpcCur and rpcHangs)
+	rpcCur   *rpcServer
+	rpcHangs = map[uint16]int{} // hangs seen per function id
+	rpcNoSrv error              // the child could not be started (three attempts): the remaining rpc cases are not run
 )
+
+// after this many hangs of one endpoint its remaining frames are not sent: on a tree where every request of the
+// endpoint hangs the verdicts are in, and the run must end within the harness timeout
+const maxHangsPerFn = 3
 
 func (s *rpcServer) output() string {
 	s.mu.Lock()
@@ -151,7 +179,7 @@ func startRpcServer() (*rpcServer, error) {
 			return nil, fmt.Errorf("the rpc server child did not start: %s", tail(s.output(), 300))
 		}
 		s.addr = a
-	case <-time.After(120 * time.Second):
+	case <-time.After(90 * time.Second):
 		s.cmd.Process.Kill()
 		<-s.done
 		RemoveAll(s.dir)
@@ -195,6 +223,9 @@ func rpcServerLocked() (*rpcServer, error) {
 		RemoveAll(rpcCur.dir)
 		rpcCur = nil
 	}
+	if rpcNoSrv != nil {
+		return nil, rpcNoSrv
+	}
 	var err error
 	for attempt := 0; attempt < 3; attempt++ {
 		var s *rpcServer
@@ -203,6 +234,7 @@ func rpcServerLocked() (*rpcServer, error) {
 			return s, nil
 		}
 	}
+	rpcNoSrv = err
 	return nil, err
 }
 
@@ -398,7 +430,13 @@ func waitOf(body []byte) int {
 
 // mkRpcRaw: in[0] = function id (2 bytes, big endian), in[1] = the body, in[2] (optional) = the body size the
 // frame header declares (4 bytes) when it differs from the real one
-func mkRpcRaw(fnb, body, decl []byte) Case {
+func mkRpcRaw(fnb, body, decl []byte) Case { return mkRpc(fnb, body, decl, false) }
+
+// mkRpcValid: the well-formed request of an endpoint, as the client sends it: it must be answered with ok. An
+// endpoint that refuses it cannot be driven by this stream any further (nothing behind the refusal is reached)
+func mkRpcValid(fnb, body []byte) Case { return mkRpc(fnb, body, nil, true) }
+
+func mkRpc(fnb, body, decl []byte, mustOk bool) Case {
 	for len(fnb) < 2 {
 		fnb = append([]byte{0}, fnb...)
 	}
@@ -421,9 +459,19 @@ func mkRpcRaw(fnb, body, decl []byte) Case {
 		}
 	}
 	rpcMu.Lock()
+	if rpcHangs[fn] >= maxHangsPerFn {
+		rpcMu.Unlock()
+		return Case{Coq: GApp("KOracleOnly", GNat(9)), Tags: []string{tagp + "skipped-after-hangs"}}
+	}
 	a := sendFrame(fn, declared, body, hangDeadline)
+	if a.class == clHang {
+		rpcHangs[fn]++
+	}
 	rpcMu.Unlock()
 	var o *Violation
+	if mustOk && a.class == clErr {
+		o = viol(fmt.Sprintf("rpc-valid-request-refused-fn%d", fn), fmt.Sprintf("the well-formed request fn=%d body=%s is refused: %s", fn, hx(body), a.body))
+	}
 	switch a.class {
 	case clPanic:
 		o = viol(fmt.Sprintf("rpc-server-dies-fn%d", fn), fmt.Sprintf("the server process dies on the request fn=%d body=%s (declared size %d): %s", fn, hx(body), declared, a.info))
@@ -534,6 +582,7 @@ func genRpc(c *Ctx, r *Rng, add func(kind string, in ...[]byte)) {
 
 	// -- byte level: every registered function id with the bodies no well-behaved client sends
 	for _, fn := range []int{fnWrite, fnQuery, fnExecute, fnEnsure} {
+		add("rpcvalid", fnb(fn), valid[fn])
 		raw(fn, valid[fn])
 		for _, b := range [][]byte{nil, huge, append([]byte{0, 0, 0, 0, 0, 0, 0, 1}, huge...), {0}, {0xff}, []byte("{"), []byte("null"), []byte("[]"), []byte("\"x\""), []byte("{}"), []byte("7"),
 			[]byte("{\"Query\":1}"), []byte("{\"Query\":null,\"Name\":null}"), []byte("{\"Query\":[\"SHOW PIPES\"],\"Name\":{}}"), []byte("{\"Query\":\"SHOW PIPES\",\"Query\":2}"),
@@ -604,6 +653,16 @@ func genRpc(c *Ctx, r *Rng, add func(kind string, in ...[]byte)) {
 	for _, w := range []int{1, 61, 65535} {
 		raw(fnQuery, encQr(&api.QueryRequest{Query: "SELECT FROM c13rpc=x", Pos: "tail", Limit: 2, WaitTimeout: w}).buf)
 	}
+	// both sides of the constants of the endpoint: QueryMaxWaitTimeout (60 is accepted - there is data, so nothing waits -
+	// 61 is refused above), QueryMaxLimit (10000 kept, 10001 clipped and the cursor cached), Offset at the ends of int32
+	for _, q := range []*api.QueryRequest{{Query: "SELECT FROM c13rpc=x", Limit: 2, WaitTimeout: 60}, {Query: "SELECT FROM c13rpc=x", Limit: 10000}, {Query: "SELECT FROM c13rpc=x", Limit: 10001},
+		{Query: "SELECT FROM c13rpc=x", Limit: 9999}, {Query: "SELECT FROM c13rpc=x", Limit: 1, Offset: 2147483647}, {Query: "SELECT FROM c13rpc=x", Limit: 1, Offset: -2147483648},
+		{Query: "SELECT FROM c13rpc=x", Pos: "tail", Limit: 1, Offset: -1}, {Query: "SELECT FROM c13rpc=x", Pos: "tail", Limit: 3, Offset: -9}, {Query: "SELECT FROM c13rpc=x", Pos: "tail", Limit: 3, Offset: -10},
+		{Query: "SELECT FROM c13rpc=x", Pos: "head", Limit: 3, Offset: 8}, {Query: "SELECT FROM c13rpc=x", Pos: "head", Limit: 3, Offset: 9}, {Query: "SELECT FROM c13rpc=x", Pos: "head", Limit: 3, Offset: 10},
+		{ReqId: 18446744073709551615, Query: "SELECT FROM c13rpc=x", Limit: 1}, {ReqId: 9223372036854775808, Query: "SELECT FROM c13rpc=x", Limit: 1, WaitTimeout: 1}} {
+		raw(fnQuery, encQr(q).buf)
+		raw(fnQuery, encQr(q).buf) // the same request twice: both are sent (the second is not recorded as a case of its own)
+	}
 	// a continued query: the request the server hands back (its id, position) is sent again, and with a broken position
 	add("rpccont", []byte("SELECT FROM c13rpc=x LIMIT 2"))
 	add("rpccont", []byte("SELECT FROM c13rpc=x WHERE msg contains \"d\" POSITION tail OFFSET -4 LIMIT 1"))
@@ -625,6 +684,18 @@ func genRpc(c *Ctx, r *Rng, add func(kind string, in ...[]byte)) {
 	names := []string{"c13pipe", "c13p4", "", " ", "a b", "a/b", "..", "\xc4\xb0", "\x00", "n\"q", strings.Repeat("n", 300), "{x}", "a=b"}
 	tcs := []string{"c13rpc=x", "", "{c13rpc=x,p=0}", "c13rpc=x AND p>0", "{a=\"b\\}", "a=\"b\\", "c13rpc like \"[\"", "upper(c13rpc)=X OR NOT p<1", "nofn(a)=1", "a=b,c", "logrange.pipe=c13pipe", "\x80", "(", genKv(r)}
 	fcs := []string{"", "msg contains \"first\"", "fields:a = b OR ts > 5", "msg like \"[a\"", "ts < \"-\"", "ts > \"2030-01-01T00:00:00Z\"", "fields:a like \"[a\"", "upper(msg) prefix F AND NOT lower(fields:e) suffix \"\"", "a=b", "(", "\x80", "msg"}
+	// definitions that differ from an existing one only in the case of a letter (name, condition keyword, value), or in blanks; twice each
+	for _, p := range []api.Pipe{{Name: "c13pipe", TagsCond: "c13rpc=x", FilterCond: "msg contains \"first\""}, {Name: "C13PIPE", TagsCond: "c13rpc=x", FilterCond: "msg contains \"first\""},
+		{Name: "c13pipe", TagsCond: "C13RPC=x", FilterCond: "msg contains \"first\""}, {Name: "c13pipe", TagsCond: "c13rpc=X", FilterCond: "msg contains \"first\""}, {Name: "c13pipe", TagsCond: "c13rpc=x", FilterCond: "MSG CONTAINS \"first\""},
+		{Name: "c13pipe", TagsCond: "c13rpc=x", FilterCond: "msg contains \"First\""}, {Name: "c13pipe", TagsCond: " c13rpc = x ", FilterCond: "msg  contains  \"first\""}, {Name: "c13pipe", TagsCond: "{c13rpc=x}", FilterCond: "(msg contains \"first\")"},
+		{Name: "c13pipe ", TagsCond: "c13rpc=x", FilterCond: "msg contains \"first\""}} {
+		raw(fnEnsure, jsonBody(p))
+		raw(fnEnsure, append(jsonBody(p), ' '))
+	}
+	for _, st := range []string{"DELETE PIPE c13p7", "CREATE PIPE c13p7 FROM c13rpc=x", "CREATE PIPE c13p7 FROM c13rpc=x", "CREATE PIPE C13P7 FROM c13rpc=x", "DELETE PIPE c13p7", "DELETE PIPE c13p7", "DESCRIBE PIPE c13p7", "DESCRIBE PIPE C13PIPE"} {
+		raw(fnExecute, jsonBody(api.ExecRequest{Query: st}))
+		raw(fnExecute, append(jsonBody(api.ExecRequest{Query: st}), ' '))
+	}
 	raw(fnEnsure, jsonBody(api.Pipe{Name: "c13pipe", TagsCond: "c13rpc=x", FilterCond: "msg contains \"second\""})) // the existing name with another filter
 	raw(fnEnsure, jsonBody(api.Pipe{Name: "c13pipe", TagsCond: "c13rpc=x", FilterCond: "msg contains \"first\"", Destination: "a=\"b\\"}))
 	for _, n := range names {
@@ -653,7 +724,14 @@ func mkRpcCont(q []byte) Case {
 	tg := ""
 	step := func(body []byte) (next *api.QueryRequest) {
 		rpcMu.Lock()
+		if rpcHangs[fnQuery] >= maxHangsPerFn {
+			rpcMu.Unlock()
+			return nil
+		}
 		a := sendFrame(fnQuery, uint32(len(body)), body, hangDeadline)
+		if a.class == clHang {
+			rpcHangs[fnQuery]++
+		}
 		rpcMu.Unlock()
 		switch a.class {
 		case clPanic:
